@@ -660,6 +660,27 @@ func (f *Flow) refine(env Env, cond *Term, truth bool) (Env, bool) {
 	case TNot:
 		return f.refine(env, cond.A, !truth)
 	case TLeaf:
+		// reflect semantics: !v.IsValid() ⇔ v.Kind() == Invalid
+		if call, ok := cond.V.(*ssa.Call); ok {
+			if sc := call.Common().StaticCallee(); sc != nil && qualifiedFnName(sc) == "(reflect.Value).IsValid" && len(call.Common().Args) == 1 {
+				kk := "pure:(reflect.Value).Kind(" + f.term(call.Common().Args[0]).key + ")"
+				out := env.clone()
+				cur, has := out[kk]
+				if !has {
+					cur = mkSet(0, 26)
+				}
+				if truth {
+					cur = cur.Minus(single(0))
+				} else {
+					cur = cur.Intersect(single(0))
+				}
+				if cur.Empty() {
+					return env, false
+				}
+				out[kk] = cur
+				return out, true
+			}
+		}
 		// a call to a tag predicate?
 		if call, ok := cond.V.(*ssa.Call); ok {
 			if sc := call.Common().StaticCallee(); sc != nil && f.w.isTagPredicate(sc) && len(call.Common().Args) == 1 {
